@@ -1,5 +1,6 @@
 mod checks_crash;
 mod checks_pure;
+mod checks_s;
 mod checks_t;
 mod explore;
 mod forgery;
@@ -22,6 +23,7 @@ fn main() {
             Some("T") => tmodel::replay(&v),
             Some("X") => checks_pure::c19_replay(&v),
             _ if v["replay"]["engine"].as_str() == Some("crash") => checks_crash::replay(&v),
+            _ if v["replay"]["engine"].as_str() == Some("S") => checks_s::replay(&v),
             _ => {
                 eprintln!("no replayer for this file");
                 2
@@ -40,6 +42,8 @@ fn main() {
         "C07" => checks_t::c07(a.tier),
         "C08" => checks_t::c08(a.tier),
         "C09" => checks_t::c09(a.tier),
+        "C10" => checks_s::c10(a.tier),
+        "C11" => checks_s::c11(a.tier),
         "C17" => checks_pure::c17(a.tier),
         "C19" => checks_pure::c19(a.tier),
         "C20" => checks_pure::c20(a.tier),
